@@ -271,7 +271,7 @@ def is_jdict(j):
 # ----------------------------------------------------------------------------- value generators
 LOOKALIKE_STRINGS = ["", "inf", "-inf", "nan", "None", "Infinity", "{00000000-0000-0000-0000-000000000030}",
                      "00000000-0000-0000-0000-000000000031", "00000000000000000000000000000099", "urn:uuid:00000000-0000-0000-0000-000000000020",
-                     "a.geoh5", "dir/x.geoh5", ".geoh5", "x.geoh5.", "true", "1", "1.5", "[1, 2]", "Option A", "data", "{}", "-"]
+                     "a.geoh5", "sub.x.geoh5", ".geoh5", "x.geoh5.", "true", "1", "1.5", "[1, 2]", "Option A", "data", "{}", "-"]
 
 
 def gen_scalar(rng, strings=True):
